@@ -51,7 +51,7 @@ var (
 	colliders  []*types.Transaction
 	idOf       = map[string]string{} // hash -> short name
 	blocks     []*types.Block
-	blockName  = []string{"K1(h1,T-10;a1,b1)", "K2(h2,T-5;a2,g0,g1)", "K3(h3,T;b2,a3)", "K1'(h1,T-10;g0,g1,a3)"}
+	blockName  = []string{"K1(h1,T-10;a1,b1)", "K2(h2,T-5;a2,g0,g1)", "K3(h3,T;b2,a3)", "K1'(h1,T-10;g0,g1,a3)", "K1''(h1,T-10;a1-signed-by-B)"}
 	parentOf   = map[int64][2]int64{1: {0, tExp - 20}, 2: {1, tExp - 10}, 3: {2, tExp - 5}}
 	sweepAt    = [][2]int64{{1, tExp - 1}, {2, tExp - 1}, {1, tExp}}
 )
@@ -94,6 +94,11 @@ func setup() {
 	for _, t := range []*types.Transaction{b1, b2} {
 		t.Sign(types.SECP256K1, privB)
 	}
+	a1x := types.Clone(a1).(*types.Transaction)
+	a1x.Sign(types.SECP256K1, privB)
+	if !bytes.Equal(a1x.Hash(), a1.Hash()) || a1x.From() == a1.From() {
+		panic("twin of a1: expected the same hash and another sender")
+	}
 	g0, g1 := mkTx(6, 0, 0, addrA), mkTx(7, 0, 0, addrB)
 	grp, err := types.CreateTxGroup([]*types.Transaction{g0, g1}, 100000)
 	if err != nil {
@@ -127,6 +132,9 @@ func setup() {
 		{Height: 2, BlockTime: tExp - 5, Txs: []*types.Transaction{a2, g0, g1}},
 		{Height: 3, BlockTime: tExp, Txs: []*types.Transaction{b2, a3}},
 		{Height: 1, BlockTime: tExp - 10, Txs: []*types.Transaction{g0, g1, a3}},
+		// the hash of a transaction does not cover its signature: a block may carry a1's body signed by
+		// another key (same hash, another sender) while the pool holds a1 itself
+		{Height: 1, BlockTime: tExp - 10, Txs: []*types.Transaction{a1x}},
 	}
 }
 
@@ -185,8 +193,8 @@ const (
 	opRemove  = opPush + 6
 	opRemMany = opRemove + 6
 	opAdd     = opRemMany + 1
-	opDel     = opAdd + 4
-	opSweep   = opDel + 4
+	opDel     = opAdd + 5
+	opSweep   = opDel + 5
 	opSweepAt = opSweep + 1
 	opTick300 = opSweepAt + 3
 	opTick600 = opTick300 + 1
@@ -220,7 +228,7 @@ func main() {
 	r := vx.Start("C21", "model_checking")
 	r.QuietStderr()
 	setup()
-	r.Rule = "BFS over all histories of {PushTx x6 (3 per sender, one is a 2-member group, one expires by height, one by block time), RemoveTxs x7, eventAddBlock x4, eventDelBlock x4, removeExpired at the current header and at 3 (height,time) edges, 300s/600s of pool age} on a real Mempool with capacity 3, per-sender limit 2, latest-list 2; states de-duplicated on (queue contents in order with age class, latest list, header); distinct = outcome classes of the events (push errors, sweeps that removed, effective/ignored rollbacks...)"
+	r.Rule = "BFS over all histories of {PushTx x6 (3 per sender, one is a 2-member group, one expires by height, one by block time), RemoveTxs x7, eventAddBlock x5, eventDelBlock x5 (one block carries the body of a pooled transaction signed by another key: same hash, another sender), removeExpired at the current header and at 3 (height,time) edges, 300s/600s of pool age} on a real Mempool with capacity 3, per-sender limit 2, latest-list 2; states de-duplicated on (queue contents in order with age class, latest list, header); distinct = outcome classes of the events (push errors, sweeps that removed, effective/ignored rollbacks...)"
 	r.Assume = []string{
 		"concurrent part (conc.go): three threads of 1-2 operations each on the instrumented pool, every schedule within the deviation bound, invariants recomputed at quiescence; answers of concurrent queries are not judged",
 		"submission = Mempool.PushTx (the admission checks in front of it are C22's subject)",
